@@ -58,6 +58,66 @@ def unsafe_sites(program, modules):
     return res
 
 
+def _merge_tags_checked(chk, prog, override):
+    """interpret the loader's flatten_mapping on one mapping node with one merge key, for every position a foreign tag
+    can sit at (the merge value itself -- a mapping, or a list --, an element of the list): the foreign node must be
+    handed to construct_undefined (or a ConstructorError raised) before PyYAML's own flatten_mapping runs; without any
+    foreign tag nothing is rejected and PyYAML's flatten_mapping runs"""
+    from ..interp import Interp, exc_value, show
+
+    NODE = ("sym", override.params()[0])
+    KEY, VAL, ELEM = ("sym", "<merge key node>"), ("sym", "<merge value node>"), ("sym", "<element of the merge list>")
+    TABLE_NAMES = ("yaml_constructors",)
+    scenarios = [("the merge value is a mapping with the tag", False, VAL), ("the merge value is a list with the tag", True, VAL), ("an element of the merge list has the tag", True, ELEM), ("no foreign tag (mapping)", False, None), ("no foreign tag (list)", True, None)]
+    for label, is_seq, foreign in scenarios:
+
+        def attr_hook(it, path, base, attr, node, is_seq=is_seq):
+            if base == NODE and attr == "value":
+                return ("list", (("tuple", (KEY, VAL)),))
+            if base == VAL and attr == "value" and is_seq:
+                return ("list", (ELEM,))
+            return None
+
+        def decide(it, path, term, is_seq=is_seq, foreign=foreign):
+            if term[0] == "cmp" and term[1] in ("==", "!=") and any(x == ("attr", KEY, "tag") for x in term[2:4]):
+                return term[1] == "=="
+            if term[0] == "call" and term[1] == ("glob", "ext:builtins.isinstance") and len(term[2]) == 2:
+                x, c = term[2]
+                names = [c] if c[0] != "tuple" else list(c[1])
+                kinds = {n[1].split(".")[-1] for n in names if n[0] == "glob"}
+                if x == VAL:
+                    return ("SequenceNode" in kinds and is_seq) or ("MappingNode" in kinds and not is_seq) or "Node" in kinds
+                if x == ELEM:
+                    return "MappingNode" in kinds or "Node" in kinds
+                return None
+            if term[0] == "cmp" and term[1] == "in" and term[2][0] == "attr" and term[2][2] == "tag" and term[3][0] == "attr" and term[3][2] in TABLE_NAMES:
+                return term[2][1] != foreign  # registered unless it is the foreign one
+            if term[0] in ("truthy",) or term[0] == "attr":
+                return None
+            return None
+
+        try:
+            outs = Interp(prog, override, attr_hook=attr_hook, decide=decide, unroll=2, inline=lambda f, ct: f.cls is not None and override.cls is not None and f.cls.qual in override.cls.mro and f is not override and f.name != "flatten_mapping").run()
+        except Undecided as e:
+            return False, "the loader's flatten_mapping override is not understood (%s)" % e
+        chk.count(len(outs))
+        for o in outs:
+            evs = o.path.events
+            rejected = [e for e in evs if e[0] == "call" and e[1][1][0] == "attr" and e[1][1][2] == "construct_undefined"]
+            sup = [i for i, e in enumerate(evs) if e[0] == "call" and e[1][1][0] == "attr" and e[1][1][2] == "flatten_mapping"]
+            raised = o.kind == "raise"
+            if foreign is not None:
+                hit = [i for i, e in enumerate(evs) if e[0] == "call" and e[1][1][0] == "attr" and e[1][1][2] == "construct_undefined" and list(e[1][2])[:1] == [foreign]]
+                if not raised and (not hit or (sup and sup[0] < hit[0])):
+                    return False, "the loader's flatten_mapping override does not reject it when %s" % label
+            else:
+                if rejected or raised:
+                    return False, "the loader's flatten_mapping override rejects a merge without any foreign tag (%s)" % label
+                if not sup:
+                    return False, "the loader's flatten_mapping override does not delegate to PyYAML's flatten_mapping"
+    return True, ""
+
+
 def run(chk):
     # the document is read while its stream is open (shared with C13)
     from . import c13
@@ -321,21 +381,16 @@ def run(chk):
                 override = f
                 break
         good = False
+        why = "the loader does not override flatten_mapping"
         if override is not None:
-            src = ast.unparse(override.node)
-            looks_at_tag = any(isinstance(n, ast.Attribute) and n.attr == "tag" for n in ast.walk(override.node))
-            rejects = "construct_undefined" in src or "ConstructorError" in src or "construct_object" in src
-            consults = "yaml_constructors" in src or "construct_object" in src
-            delegates = any(isinstance(n, ast.Call) and isinstance(n.func, ast.Attribute) and n.func.attr == "flatten_mapping" and isinstance(n.func.value, ast.Call) and util.dotted(n.func.value.func) == "super" for n in ast.walk(override.node))
-            merge_only = "merge" in src
-            good = looks_at_tag and rejects and consults and delegates and merge_only
+            good, why = _merge_tags_checked(chk, prog, override)
         if good:
             chk.ok("O18.7", override.qual, "the loader checks the tag of every merge value against its constructor table before PyYAML splices the content in", node=override.node)
         else:
             chk.bad(
                 "O18.7",
                 cls.qual,
-                "a python/* tag or an unregistered !tag on the value of a merge key (`<<: !!python/object/apply:os.system {...}`, also inside a list of merge values) is silently ignored instead of rejected: the installed SafeConstructor.flatten_mapping splices value_node.value without ever dispatching value_node.tag, and %s" % ("the loader's flatten_mapping override does not reject such tags" if override is not None else "the loader does not override flatten_mapping"),
+                "a python/* tag or an unregistered !tag on the value of a merge key (`<<: !!python/object/apply:os.system {...}`, `<<: !Nope [{...}]`, also on an element of a list of merge values) is silently ignored instead of rejected: the installed SafeConstructor.flatten_mapping splices value_node.value without ever dispatching value_node.tag, and %s" % why,
                 node=(override.node if override is not None else cls.node),
                 stmt="merge-value-tag-ignored",
                 input="a: {<<: !Unregistered {x: 1}}",
